@@ -59,7 +59,7 @@ Fixpoint c_enc_loop (fuel : nat) (nb : Z) (num : Z) (b : cbuf) : Z * cbuf :=
 (* static void encodebits(int buf[], int num_of_bits, int num); the trailing partial byte
    cbuf[cnt] = lastbyte << (8 - lastbits) is produced by [c_flush] *)
 Definition c_encodebits (b : cbuf) (num_of_bits : Z) (num : Z) : cbuf :=
-  let '(nb, b1) := c_enc_loop 5 num_of_bits num b in
+  let '(nb, b1) := c_enc_loop 10 num_of_bits num b in
   if 0 <? nb then
     let lastbyte := u32 (Z.lor (Z.shiftl (cb_lastbyte b1) nb) num) in
     let lastbits := cb_lastbits b1 + nb in
@@ -382,6 +382,108 @@ Definition xtc_encode (cs : list triple) : option xtc_payload :=
   let larger := magic maxidx / 2 in
   match enc_loop (length cs) f maxidx minidx larger true (EncSt smallidx smaller smallnum (-1)) (0, 0, 0) cs with
   | Some bits => Some (XtcPayload mn mx smallidx (pack_bits bits))
+  | None => None
+  end.
+
+(* ------------------------------------------------------------------ the same encoder on the C bit buffer *)
+(* What follows threads the byte/lastbits/lastbyte buffer of xdrfile.c through the very calls the C code makes
+   (encodebits for the separate fields and the flag bits, encodeints = bytes[] of the mixed-radix value sent
+   byte by byte, low byte first, then the remaining high bits or zero padding).  XtcLiftProofs.v proves that the
+   bytes this produces are exactly [xp_bytes] of [xtc_encode]: the round-trip theorem speaks about the C layout. *)
+
+(* bytes[0 .. num_of_bytes-1] of encodeints: base-256 digits, low first, at least one *)
+Fixpoint le_digits (fuel : nat) (v : Z) : list Z :=
+  match fuel with
+  | O => [v]
+  | S f => if v <? 256 then [v] else v mod 256 :: le_digits f (v / 256)
+  end.
+
+Definition c_send_bytes (b : cbuf) (bytes : list Z) : cbuf := fold_left (fun b x => c_encodebits b 8 x) bytes b.
+
+Definition c_encodeints (b : cbuf) (nbits : Z) (sizes nums : list Z) : cbuf :=
+  let bytes := le_digits 40 (mixed_radix sizes nums) in
+  let k := Z.of_nat (length bytes) in
+  if 8 * k <=? nbits
+  then c_encodebits (c_send_bytes b bytes) (nbits - 8 * k) 0
+  else c_encodebits (c_send_bytes b (removelast bytes)) (nbits - 8 * (k - 1)) (last bytes 0).
+
+Definition c_put_abs (f : absfmt) (c : triple) (b : cbuf) : cbuf :=
+  let '(t0, t1, t2) := tsub c (af_min f) in
+  if af_bitsize f =? 0
+  then match af_bits f with
+       | [n0; n1; n2] => c_encodebits (c_encodebits (c_encodebits b n0 t0) n1 t1) n2 t2
+       | _ => b
+       end
+  else c_encodeints b (af_bitsize f) (af_sizes f) [t0; t1; t2].
+
+Definition c_enc_flags (prevrun run is_smaller : Z) (b : cbuf) : cbuf :=
+  if negb (run =? prevrun) || negb (is_smaller =? 0)
+  then c_encodebits (c_encodebits b 1 1) 5 (run + is_smaller + 1)
+  else c_encodebits b 1 0.
+
+(* the decisions of one pass of the outer loop, separated from what is emitted (same code as [enc_group]) *)
+Record gplan := GPlan { gp_abs : triple; gp_prevrun : Z; gp_run : Z; gp_is : Z; gp_idx : Z; gp_deltas : list (list Z) }.
+
+Definition enc_plan (maxidx minidx larger : Z) (first : bool) (st : encstate) (prev : triple)
+           (cs : list triple) : option (encstate * triple * list triple * gplan) :=
+  match cs with
+  | [] => None
+  | c :: r =>
+      let is_smaller0 :=
+        if (es_smallidx st <? maxidx) && negb first && all_lt (tsub c prev) larger then 1
+        else if minidx <? es_smallidx st then -1 else 0 in
+      let '(c1, r1, is_small) :=
+        match r with
+        | c2 :: r2 => if all_lt (tsub c c2) (es_smallnum st) then (c2, c :: r2, true) else (c, r, false)
+        | [] => (c, r, false)
+        end in
+      let is_smaller1 := if negb is_small && (is_smaller0 =? -1) then 0 else is_smaller0 in
+      let '(deltas, rest, prev', run, is_smaller) :=
+        if is_small then small_run 8 (es_smallnum st) (es_smaller st) c1 r1 0 is_smaller1 []
+        else ([], r1, c1, 0, is_smaller1) in
+      Some (enc_update st is_smaller run, prev', rest,
+            GPlan c1 (es_prevrun st) run is_smaller (es_smallidx st) deltas)
+  end.
+
+Definition emit_bits (f : absfmt) (g : gplan) : list bool :=
+  let m := magic (gp_idx g) in
+  put_abs f (gp_abs g) ++ enc_flags (gp_prevrun g) (gp_run g) (gp_is g) ++
+  concat (map (encodeints (gp_idx g) [m; m; m]) (gp_deltas g)).
+
+Definition c_emit (f : absfmt) (g : gplan) (b : cbuf) : cbuf :=
+  let m := magic (gp_idx g) in
+  fold_left (fun b d => c_encodeints b (gp_idx g) [m; m; m] d) (gp_deltas g)
+            (c_enc_flags (gp_prevrun g) (gp_run g) (gp_is g) (c_put_abs f (gp_abs g) b)).
+
+Fixpoint c_enc_loop_frame (fuel : nat) (f : absfmt) (maxidx minidx larger : Z) (first : bool) (st : encstate)
+         (prev : triple) (cs : list triple) (b : cbuf) : option cbuf :=
+  match fuel with
+  | O => match cs with [] => Some b | _ => None end
+  | S fu =>
+      match cs with
+      | [] => Some b
+      | _ => match enc_plan maxidx minidx larger first st prev cs with
+             | Some (st', prev', rest, g) => c_enc_loop_frame fu f maxidx minidx larger false st' prev' rest (c_emit f g b)
+             | None => None
+             end
+      end
+  end.
+
+(* xdrfile_compress_coord_float on the C buffer: buf2[0..2] = 0, the loop, then buf2[0] bytes (+1 if lastbits) *)
+Definition c_xtc_encode (cs : list triple) : option xtc_payload :=
+  let mn := fold_triples tmin cs (0, 0, 0) in
+  let mx := fold_triples tmax cs (0, 0, 0) in
+  let f := mk_absfmt mn mx in
+  let smallidx := first_idx 80 xtc_firstidx (mindiff cs) in
+  if (lastidx <=? smallidx + 8) || (existsb (fun s => int_max - 2 <=? s) (af_sizes f)) then None else
+  let maxidx := Z.min lastidx (smallidx + 8) in
+  let minidx := maxidx - 8 in
+  let smaller := magic (Z.max xtc_firstidx (smallidx - 1)) / 2 in
+  let smallnum := magic smallidx / 2 in
+  let larger := magic maxidx / 2 in
+  match c_enc_loop_frame (length cs) f maxidx minidx larger true (EncSt smallidx smaller smallnum (-1)) (0, 0, 0) cs
+                         (CBuf [] 0 0) with
+  | Some b => Some (XtcPayload mn mx smallidx (c_flush b))
   | None => None
   end.
 
